@@ -158,7 +158,9 @@ _CUR = "current_model_state"
 _UA_OK = ["user_args.iteration_limit > 0", "user_args.num_clusters >= 2 and user_args.num_clusters <= 65536",
           "user_args.window_size >= 1", "user_args.min_cluster_size >= 1", "user_args.sparsity_weight >= 0",
           "user_args.label_switching_cost >= 0", "stacked_ok(stacked_training_data, user_args.window_size)",
-          "stacked_training_data.shape[0] > user_args.num_clusters", "stacked_training_data.shape[1] < 67108864",
+          # C17/C04 are stated for runs with more windows than clusters (the CHI normalisation divides by T - K)
+          ("restricts:more-windows-than-clusters", "stacked_training_data.shape[0] > user_args.num_clusters"),
+          "stacked_training_data.shape[1] < 67108864",
           # spectral-calculus link (trusted mathematics, see x_update_prox): what a worker returns re-inflates to an SPD matrix
           "forall(lambda t, x_e: spd_compressed_task(t, x_e))"]
 
@@ -180,7 +182,8 @@ contract(ML + 'fit_stacked_data', props=['C09', 'C04', 'C06', 'C13', 'C14', 'C20
                   ("final-state-was-scored-last", "FINAL._phase == 4 and wf(FINAL)"),
                   ("no-result-after-a-worker-failure", "not _any_task_failed"),
                   ("pool-released", "_pool_created and _pool_closed and _pool_joined"),
-                  ("labels-are-the-final-states", "len(result.point_labels) == stacked_training_data.shape[0] and "
+                  ("labels-are-the-final-states", "not isnone(result.point_labels) and fresh(result.point_labels) and "
+                   "len(result.point_labels) == stacked_training_data.shape[0] and "
                    "forall(0, len(result.point_labels), lambda p: result.point_labels[p] == FINAL._point_labels[p])"),
                   ("labels-in-range", "forall(0, len(result.point_labels), lambda p: 0 <= result.point_labels[p] and "
                    "result.point_labels[p] < user_args.num_clusters)"),
